@@ -23,16 +23,31 @@ CHECKS = {
             'For each catalogue recursive program and every graph with <=K edges z3 proves result == T^(depth+1)(empty) (self recursion, flat and iterative unfolding, depths 1,2,3,8,21,22,24) or, for vertical unfolding of a cut cycle, T^(depth+1)(empty) <= result <= lfp.',
             'Trusted: lv/sqlsem.py, lv/refsem.py, z3. Upper containment bound checked against T^(cycle*(depth+1)) and confirmed against a concretely computed least fixpoint on replay. Outside: diamond mode, stop signals inside compiled recursion, depth infinity.',
             'DESIGN.md §2.1, §3 C03', 'sqlsmt'),
+    'C04': ('translation_validation',
+            'metamorphic: program with functor applications vs the program substituted by hand on the catalogue AST, both compiled by the real compiler; equivalence of the emitted SQL decided by z3 over a bounded symbolic database; sat models replayed on real SQLite',
+            'For each catalogue functor program z3 proves every made predicate equals its hand-substituted definition, and F, its arguments and bystanders equal their meaning in the program without :=, on every database with <=2 rows per table.',
+            'Trusted: lv/sqlsem.py, lv/gen_meta.py hand_substitute, z3. Outside: functors over recursive predicates, constant arguments.',
+            'DESIGN.md §3 C04', 'sqlsmt'),
     'C07': ('translation_validation',
             'metamorphic: original and permuted/renamed program both compiled by the real compiler, equivalence of the two emitted SQL texts decided by z3 over a bounded symbolic database; sat models replayed on real SQLite',
             'For each catalogue program (core, agg, rec) and a seeded permutation of rules/conjuncts/disjuncts or renaming of variables/predicates, z3 proves both emitted SQL texts return the same multiset on every database with <=K rows per table.',
             'Trusted: lv/sqlsem.py, z3. Part (b) of the design (order independence of the Python aggregate UDFs) is decided in C20.',
             'DESIGN.md §3 C07', 'sqlsmt'),
+    'C08': ('translation_validation',
+            'metamorphic: the same program under its default plan and under a seeded assignment of @NoInject/@With/@NoWith/@Ground to its intermediates, both compiled by the real compiler; equivalence decided by z3 over a bounded symbolic database (multi-statement @Ground plans through a symbolic statement interpreter); sat models replayed on real SQLite',
+            'For each catalogue program (layered, core) and each sampled annotation assignment z3 proves the rows of the final predicates are unchanged on every database with <=2 rows per table; pairs with identical SQL are counted trivial.',
+            'Trusted: lv/sqlsem.py, z3.',
+            'DESIGN.md §3 C08', 'sqlsmt'),
     'C11': ('translation_validation',
             'metamorphic: short and long form of each documented shorthand (AST rewrite at every site) compiled by the real compiler, equivalence of the emitted SQL decided by z3 over a bounded symbolic database; sat models replayed on real SQLite',
             'For each catalogue program (core, agg, sugarbase) and each applicable documented equivalence, z3 proves short form == long form on every database with <=K rows per table; a long form rejected by the compiler is a violation.',
             'Trusted: lv/sqlsem.py, z3. Known finding KF-C11-eq-after-expression.',
             'DESIGN.md §3 C11', 'sqlsmt'),
+    'C18': ('translation_validation',
+            'bounded symbolic evaluation of ORDER BY/LIMIT in the emitted SQL (z3) vs the first K rows of the reference multiset in the requested order, position-wise for the ordered predicate and as multisets for its consumers; sat models replayed on real SQLite',
+            'For each catalogue program with an ordered/limited predicate z3 proves, for every database with <=K rows whose sort keys form a total order, that the predicate returns exactly the first K reference rows in order and that consumers read exactly those rows (so it was not inlined without its clauses).',
+            'Trusted: lv/sqlsem.py, lv/refsem.py, lv/vals.py order_limit_rel, z3. Assumes distinct non-null sort keys.',
+            'DESIGN.md §3 C18', 'sqlsmt'),
 }
 
 NOT_APPLICABLE = {
